@@ -24,7 +24,8 @@ func genMsgKey(r *rand.Rand, alg int, withBaseIV bool) msgKey {
 	var extra []string
 	if r.Intn(3) != 0 {
 		mk.kid = randBytes(r, 1+r.Intn(6))
-		extra = append(extra, "int:2", "b:"+hx(mk.kid))
+		// the kid as []byte, key.ByteStr or another named byte-slice type (a public key used as its own id, an application type)
+		extra = append(extra, "int:2", []string{"b:", "b:", "b:", "bs:", "bx:"}[r.Intn(5)]+hx(mk.kid))
 	}
 	switch {
 	case isIn(alg, sigAlgs):
